@@ -44,18 +44,23 @@ def transforms(rng, base, quick):
 def apply(rng, base, t):
     s = copy.deepcopy(base)
     kind, arg = t
+    keys = [k for k in ('Q', 'Qf') if k in base]
     if kind in ('perm', 'subset'):
-        s['Q'] = [base['Q'][i] for i in arg]
+        for k in keys:
+            s[k] = [base[k][i] for i in arg]
         s['cells'] = [base['cells'][i] for i in arg]
         ids = s['cells']
     elif kind == 'dup':
-        s['Q'] = base['Q'] + [base['Q'][arg]]
+        for k in keys:
+            s[k] = base[k] + [base[k][arg]]
         s['cells'] = base['cells'] + [99]
         ids = base['cells']
     elif kind == 'foreign':
-        extra = [[rng.randint(0, 4) for _ in base['qgenes']] for _ in range(arg)]
+        hi = 40 if base['cfg'].get('norm') == 'raw' else 4
+        extra = [[rng.randint(0, hi) for _ in base['qgenes']] for _ in range(arg)]
         pos = rng.randint(0, len(base['cells']))
-        s['Q'] = base['Q'][:pos] + extra + base['Q'][pos:]
+        for k in keys:
+            s[k] = base[k][:pos] + [[float(v) for v in row] for row in extra] + base[k][pos:]
         s['cells'] = base['cells'][:pos] + [90 + i for i in range(arg)] + base['cells'][pos:]
         ids = base['cells']
     else:
@@ -86,21 +91,41 @@ def run(ctx):
         if not res.ok:
             raise MachineryError(res.error_trace)
     if ctx.only in (None, 's2c'):
-        nbase = 8 if quick else 60
+        nbase = 12 if quick else 90
         items, meta = [], []
         for b in range(nbase):
             base = maptrace.gen_scenario(rng, max_levels=3, max_leaves=6, min_leaves=2,
+                                         G=(10 if b % 3 == 2 else rng.choice([5, 10])), vmax=9,
                                          ncell=rng.randint(2, 4 if quick else 5),
                                          cfg={'fnum': 1, 'fden': 1, 'drop': None, 'flatten': False})
             if len(base['tree']['nodes'][0]) == 1:
                 base['tree'] = maptrace.random_tree(rng, 1, 5, 2)
-                base['means'] = {str(l): [rng.randint(0, 4) for _ in range(base['G'])]
+                base['means'] = {str(l): [rng.randint(0, 9) for _ in range(base['G'])]
                                  for l in base['tree']['nodes'][-1]}
                 base['markers'] = {'0/0': base['markers']['0/0']}
             # make two cells identical: "cells with identical vectors receive identical results"
             if len(base['Q']) > 2:
                 base['Q'][1] = list(base['Q'][0])
             safe_markers(rng, base)
+            mode = b % 3
+            if mode == 1:
+                # raw counts: every chunk must be normalised (not only the first one)
+                base['cfg']['norm'] = 'raw'
+                base['Q'] = [[rng.randint(0, 40) for _ in base['qgenes']] for _ in base['cells']]
+                if len(base['Q']) > 2:
+                    base['Q'][1] = list(base['Q'][0])
+            elif mode == 2:
+                # non-integer profiles incl. a nearly constant cell next to high-variance ones
+                usable = [g for g in base['qgenes'] if g <= base['G']]
+                base['markers']['0/0'] = sorted(set(base['markers']['0/0']) | set(usable[:5]))
+                Qf = [[v + rng.random() * 1e-3 for v in row] for row in base['Q']]
+                Qf[0] = [5.0 + 1e-9 * rng.randint(0, 9) for _ in base['qgenes']]
+                if len(Qf) > 2:
+                    Qf[1] = list(Qf[0])
+                Qf[-1] = [float(rng.choice([0, 40])) for _ in base['qgenes']]
+                base['Qf'] = Qf
+                base['cfg']['chunk'] = 10        # base: all cells in one batch
+                base['cfg']['P'] = 1
             scheme = rng.choice(['structural', 'reversed', 'shared'])
             items.append((base, scheme, {'want_trace': True}))
             meta.append(('base', b, None, None))
@@ -115,7 +140,15 @@ def run(ctx):
         for r, (kind, b, t, ids) in zip(rs, meta):
             if kind == 'base':
                 cur = r
-                und = relations.undetermined_cells(r['scn'], r['trace']) if r['ok'] else set()
+                und = set()
+                if r['ok']:
+                    import numpy as np
+                    sc = r['scn']
+                    Qm = np.array(sc.get('Qf', sc['Q']), dtype=float)
+                    if sc['cfg'].get('norm') == 'raw':
+                        den = np.where(Qm.sum(axis=1) > 0, Qm.sum(axis=1), 1.0)
+                        Qm = np.log2(1.0 + 1e6 * Qm / den[:, None])
+                    und = relations.undetermined_cells(sc, r['trace'], Qfloat=Qm.tolist())
                 # identical vectors inside the base run
                 if r['ok'] and len(r['scn']['Q']) > 2:
                     c0, c1 = r['scn']['cells'][0], r['scn']['cells'][1]
